@@ -192,7 +192,7 @@ Definition provider_ok (gh : fghost) (g : nat) (m : N) : bool :=
   if Nat.ltb g (fg_shift gh) then true                                   (* removed by retention *)
   else if memn g (fg_swapped gh) then
          has_bits m 136                                                    (* index: descriptor + file *)
-         && (if has_bits m 768 then false                                  (* an unknown document descriptor *)
+         && (if has_bits m 768 then has_bits m 17                          (* its own descriptor on .docs *)
              else if has_bits m 256 then has_bits m 17                     (* the active fraction's descriptor, .docs *)
              else if has_bits m 512 then has_bits m 68                     (* its own descriptor on .sdocs *)
              else false)
